@@ -429,7 +429,7 @@ func init() {
 				w.Class("faithful")
 				w.NontrivialByIndex()
 			}}
-			return []*sup.Space{single, hist, ver, fork, c07OverlapSpace(), c07DecoderSpace(), c07UnencodableSpace(), c07ErrorsSpace()}
+			return []*sup.Space{single, hist, ver, fork, c07OverlapSpace(), c07DecoderSpace(), c07UnencodableSpace(), c07ErrorsSpace(), c07SequentialSpace()}
 		},
 	})
 }
